@@ -4,6 +4,7 @@ import random
 import gen_check
 import gen_parse
 import ns_recognizer
+import parse_model
 import runner
 from registry import REGISTRY
 
@@ -99,6 +100,11 @@ def run(chk):
         elif f[1] != "ok" or dec(f[2]) != g.get("out"):
             show_dis.append((c, g, {"model": l[:300]}, ["ShowOnSource output differs from the model"]))
     stats["show_comparisons"] = len(show_cases)
+    # the parser model on every text: same acceptance, same tree
+    pdis, pstats = parse_model.compare(texts, gos)
+    stats.update(pstats)
+    stats["model_comparisons"] = stats.get("model_comparisons", 0) + pstats["parser_model_comparisons"]
+    show_dis = show_dis + pdis
     stats["model_disagreements"] = len(show_dis)
     unknown = [f for f in fails if not f[4]]
     known = [f for f in fails if f[4]]
@@ -109,7 +115,7 @@ def run(chk):
             chk.violation("theorem:%s no longer checks" % t, found_input=False, site="theorem:" + t)
     if not unknown:
         for c, go, m, why in show_dis[:3]:
-            chk.violation("correspondence:display model and implementation differ: %s" % why, case=c, go=go, model=m, found_input=False)
+            chk.violation("correspondence:model and implementation differ: %s" % why, case=c, go=go, model=m, found_input=False)
     stats["oracle_failures"] = len([f for f in fails if not f[4]])
     chk.coverage.update(stats)
     chk.coverage["rule"] = ("generated valid scripts, every prefix (subset), token deletion/duplication/insertion/replacement, bracket removal, inserted non-ASCII and control "
